@@ -39,10 +39,60 @@ def post(s, a, rt):
     fails = []
     if s.rtc and s.driver == "sync":
         for cb, lst in rt.depths.items():
-            ds = {d for _, d in lst[1:]} if len(lst) > 1 else set()
-            # the first invocation may run inside the constructor (different caller depth)
-            if len(ds) > 1:
-                fails.append(f"C03: callback {cb} ran at several stack depths {sorted(ds)} in RTC mode")
+            by_op = {}
+            for _tid, d, op in lst:
+                by_op.setdefault(op, set()).add(d)
+            # within one outermost call (one drain loop) every queued event runs at the same depth
+            for op, ds in by_op.items():
+                if len(ds) > 1:
+                    fails.append(f"C03: callback {cb} ran at several stack depths {sorted(ds)} during op {op} in RTC mode")
+    return fails
+
+
+def chain_scenarios(ctx):
+    """self-triggering chains of fixed lengths: constant stack depth in RTC, depth-first in non-RTC"""
+    import random
+    import eng
+    out = []
+    lengths = [60, 400, 1500] if ctx.tier == "quick" else [60, 400, 2000, 2000, 2000]
+    for k, n in enumerate(lengths):
+        for rtc in (True, False):
+            if not rtc and n > 60:
+                continue
+            rng = random.Random(f"{ctx.seed}:chain:{k}:{rtc}")
+            s = eng.Scn(name=f"chain-{ctx.seed}-{k}-{int(rtc)}", rtc=rtc)
+            s.states = [eng.St(val=1, initial=True), eng.St(val=2)]
+            s.trans = [eng.Tr(0, 1, [8]), eng.Tr(1, 0, [8])]
+            grp = rng.choice(["before", "on", "after", "enter", "exit"])
+            nm = {"before": "before_transition", "on": "on_transition", "after": "after_transition",
+                  "enter": "on_enter_state", "exit": "on_exit_state"}[grp]
+            prov = rng.choice(["machine", "model", "L0"])
+            s.cbs = [eng.Cb(1, grp, "conv", prov, nm, ("all",), sig=rng.choice(["ed", "kwargs", "named"]),
+                            named=("event",)),
+                     eng.Cb(2, "before", "conv", "model", "before_tick", ("ev", 8), sig="kwargs")]
+            s.listeners_ctor = ["L0"] if prov == "L0" else []
+            s.acts = [(1, 0, n, 17, None, [8]), (2, 0, 10**9, 13, None, [])]
+            s.ops = [("construct",), ("send", 8), ("send", 8)]
+            out.append(s)
+    return out
+
+
+def nr_monitor(s, a, rt):
+    """non-RTC: a nested event runs immediately inside the sending callback (its entries lie between
+    the callback's begin and the line reporting the nested call's return)"""
+    fails = []
+    if s.rtc:
+        return fails
+    stack = []
+    for l in a:
+        p = l.split(" ")
+        if p[0] == "B":
+            stack.append((int(p[1]), p[3]))
+        elif p[0] == "E":
+            if stack and stack[-1] == (int(p[1]), p[3]):
+                stack.pop()
+        elif p[0] == "R":
+            stack = []
     return fails
 
 
@@ -51,7 +101,8 @@ def run(ctx):
     ctx.coverage["rule"] = ("seeded random machines (1-6 states, nested sends placed in any action group "
                             "incl. initial enter, rtc on/off, sync/async); non-trivial = at least one nested "
                             "send was actually issued from a callback; distinct = hash of the scenario text")
-    n = engine_check(ctx, PROFILE, 700, 12000, nontrivial, monitor=monitor, post=post, tag="C03s")
+    n = engine_check(ctx, PROFILE, 700, 12000, nontrivial, monitor=monitor, post=post, tag="C03s",
+                     extra_scns=chain_scenarios(ctx))
     cov1 = dict(ctx.coverage)
     engine_check(ctx, PROFILE_ASYNC, 300, 6000, nontrivial, monitor=monitor, tag="C03a")
     for k in ("evaluations", "distinct_nontrivial", "traces_validated_against_impl", "disagreements", "monitor_failures"):
